@@ -555,8 +555,8 @@ func init() {
 		ID:    "C03",
 		Level: "exploration",
 		Rule: "per run one seeded honest world whose TCB-Info or QE-Identity endpoint (tape) turns Byzantine; flavour 'down' (2/3 of runs): the genuine signed member makes the model reject (matching level OutOfDate / FMSPC or SEAM-signer mismatch / QE level Revoked / MRSIGNER mismatch) so any acceptance proves unsigned content drove the verdict; flavour 'up': only authenticity-destroying faults must be rejected. " +
-			"~95 structured endpoint faults (transport, corruption, re-encoding, signature over whole body, foreign / look-alike / wrong-role keys with matching headers, extra and duplicate members in exact, case and Unicode-fold spellings before/between/after the genuine ones carrying verdict-flipping content, missing members, 12 issuer-chain header faults) plus single-bit flips of body and header (quick: every 23rd bit, 23 runs tile all positions; thorough: every bit in 1/8 of the runs). " +
-			"distinct = (route, fault name or flip region+bit, flavour)",
+			"~95 structured endpoint faults (transport, corruption, re-encoding, signature over whole body, foreign / look-alike / wrong-role keys with matching headers, look-alike hierarchies whose signing or root certificate is expired / not yet valid / carries critical or unusual extensions, extra and duplicate members in exact, case and Unicode-fold spellings before/between/after the genuine ones carrying verdict-flipping content, missing members, 12 issuer-chain header faults) plus single-bit flips of body and header (quick: every 23rd bit, 23 runs tile all positions; thorough: every bit in 1/8 of the runs). " +
+			"every structured fault is judged with collateral checking alone and with revocation checking on top. distinct = (route, fault name or flip region+bit, flavour)",
 		Assumptions: []string{
 			"flips in JSON punctuation / hex letter case / PEM or percent-escapes that decode identically are don't-care in flavour 'up'",
 			"a random bit flip or foreign-key signature does not yield a valid ECDSA signature",
